@@ -1005,7 +1005,10 @@ impl<'a, 'b, W: Write> Serializer for &'a mut YamlSerializer<'b, W> {
                 }
             } else if self.prefer_block_scalars {
                 // Single-line string. If it needs quoting as a value, don't auto-fold.
-                let needs_quoting = !is_plain_value_safe(v, self.yaml_12, false);
+                // (Trailing spaces are content of the last folded line, so they alone are
+                // no reason to quote.)
+                let needs_quoting =
+                    !is_plain_value_safe(v.trim_end_matches(' '), self.yaml_12, false);
                 if !needs_quoting {
                     // Measure in characters, not bytes.
                     if v.chars().count() > self.folded_wrap_col {
